@@ -29,6 +29,7 @@ use crate::{
     eager_reader_artifact::{
         generate_eager_reader_artifacts, generate_eager_reader_condition_artifact,
         generate_eager_reader_output_type_artifact, generate_eager_reader_param_type_artifact,
+        generate_eager_reader_parameters_type_artifact,
         generate_link_output_type_artifact,
     },
     entrypoint_artifact::{
@@ -396,6 +397,17 @@ fn get_artifact_path_and_content_impl<TCompilationProfile: CompilationProfile>(
                     .extend(traversal_state.accessible_client_scalar_selectables.iter())
             }
             None => {
+                // If this field is not reachable from an entrypoint, no reader artifacts were
+                // generated for it, but its param type imports its parameters type.
+                let client_selectable = match user_written_client_type.dereference() {
+                    SelectionType::Scalar(s) => s.lookup(db).scalar_selected(),
+                    SelectionType::Object(o) => o.lookup(db).object_selected(),
+                };
+                path_and_contents.extend(generate_eager_reader_parameters_type_artifact(
+                    db,
+                    &client_selectable,
+                ));
+
                 // If this field is not reachable from an entrypoint, we need to
                 // encounter all the client fields
                 for nested_client_selectable_id in
